@@ -46,6 +46,7 @@ struct Roles {
 
 #[derive(Clone, Debug)]
 enum Target {
+    Orphan,
     Vamm(usize),
     Engine,
     Fund,
@@ -68,6 +69,7 @@ struct Entry {
 
 fn addr_of(w: &World, t: &Target) -> Addr {
     match t {
+        Target::Orphan => w.orphan_vamm.clone().expect("orphan vamm"),
         Target::Vamm(v) => w.vamms[*v].clone(),
         Target::Engine => w.engine.clone(),
         Target::Fund => w.fund.clone(),
@@ -185,6 +187,43 @@ fn entries(w: &World, roles: &Roles) -> Vec<Entry> {
             target: Target::Feed(v),
             msg: jv(&feed::ExecuteMsg::UpdateOwner { owner: "thirdadmin".into() }),
             allowed: vec![roles.feed_owner[v].clone()],
+            must_succeed_for_holder: true,
+            at_time: None,
+        });
+    }
+    // a vAMM that was opened before any margin engine / insurance fund was configured: nobody holds those roles
+    if let Some(orphan) = &w.orphan_vamm {
+        let st: vamm::StateResponse = w.query(orphan, &vamm::QueryMsg::State {}).expect("orphan state");
+        let nobody: Vec<String> = vec![];
+        es.push(Entry {
+            name: "orphan.SwapInput",
+            target: Target::Orphan,
+            msg: jv(&vamm::ExecuteMsg::SwapInput { direction: vamm::Direction::AddToAmm, quote_asset_amount: u(d), base_asset_limit: u(0), can_go_over_fluctuation: true }),
+            allowed: nobody.clone(),
+            must_succeed_for_holder: false,
+            at_time: None,
+        });
+        es.push(Entry {
+            name: "orphan.SwapOutput",
+            target: Target::Orphan,
+            msg: jv(&vamm::ExecuteMsg::SwapOutput { direction: vamm::Direction::AddToAmm, base_asset_amount: u(d / 10), quote_asset_limit: u(0) }),
+            allowed: nobody.clone(),
+            must_succeed_for_holder: false,
+            at_time: None,
+        });
+        es.push(Entry {
+            name: "orphan.SettleFunding",
+            target: Target::Orphan,
+            msg: jv(&vamm::ExecuteMsg::SettleFunding {}),
+            allowed: nobody,
+            must_succeed_for_holder: false,
+            at_time: Some(st.next_funding_time.max(obs.time) + 1),
+        });
+        es.push(Entry {
+            name: "orphan.SetOpen",
+            target: Target::Orphan,
+            msg: jv(&vamm::ExecuteMsg::SetOpen { open: !st.open }),
+            allowed: vec!["owner".into()],
             must_succeed_for_holder: true,
             at_time: None,
         });
@@ -460,7 +499,10 @@ impl Property for C09 {
             proptest::collection::vec(op_strategy(&w), 0..=10),
             proptest::collection::vec((0u8..6, 0u8..2, any::<u16>()).prop_map(|(role, v, to)| Transfer { role, v, to }), 0..=nt),
         )
-            .prop_map(|(cfg, prelude, transfers)| Case { cfg, prelude, transfers })
+            .prop_map(|(mut cfg, prelude, transfers)| {
+                cfg.orphan = true;
+                Case { cfg, prelude, transfers }
+            })
             .boxed()
     }
     fn cases(&self, tier: Tier) -> u32 {
@@ -473,7 +515,7 @@ impl Property for C09 {
         Some("matrix_entries")
     }
     fn rule(&self) -> String {
-        "deployments of all five contracts (1-2 vAMMs, each with the repository's own price feed, cw20 or native collateral) brought into a generated state by up to 10 engine / admin operations (positions, paused, closed, unregistered, whitelisted); then the complete matrix of 26 privileged message variants (canonical instances whose arguments are valid in that state) x 9+ senders (deployment owner, pauser, engine contract, insurance-fund contract, a vAMM contract, a trader, a stranger, two fresh admin accounts, every current role holder) is executed, each entry from the same snapshot: a sender that does not hold the message's role must get Err with the raw storage dump unchanged; the role holder must succeed whenever nothing but authorisation can fail. Then up to 4 (thorough: 8) generated role transfers (vAMM owner, engine owner, pauser, fund owner, fee-pool owner, feed owner; chains and transfers back) are applied, the harness tracking the holders from the successful transfer messages, and after each the matrix of the affected contract is enumerated again. evaluations = matrix entries. Non-trivial: a case with >= 1 successful role transfer and >= 1 open position. Distinct by digest of the case.".into()
+        "deployments of all five contracts (1-2 vAMMs, each with the repository's own price feed, cw20 or native collateral) brought into a generated state by up to 10 engine / admin operations (positions, paused, closed, unregistered, whitelisted); then the complete matrix of 26 privileged message variants (plus swaps / funding settlement / SetOpen on an extra vAMM that was opened before any margin engine or insurance fund was configured, where nobody holds those roles) (canonical instances whose arguments are valid in that state) x 9+ senders (deployment owner, pauser, engine contract, insurance-fund contract, a vAMM contract, a trader, a stranger, two fresh admin accounts, every current role holder) is executed, each entry from the same snapshot: a sender that does not hold the message's role must get Err with the raw storage dump unchanged; the role holder must succeed whenever nothing but authorisation can fail. Then up to 4 (thorough: 8) generated role transfers (vAMM owner, engine owner, pauser, fund owner, fee-pool owner, feed owner; chains and transfers back) are applied, the harness tracking the holders from the successful transfer messages, and after each the matrix of the affected contract is enumerated again. evaluations = matrix entries. Non-trivial: a case with >= 1 successful role transfer and >= 1 open position. Distinct by digest of the case.".into()
     }
     fn assumptions(&self) -> Vec<String> {
         vec![
